@@ -149,12 +149,15 @@ def run(repo, rep, tier):
             sup, notes = fe['<return>']
             if isinstance(sup, Opaque) or isinstance(notes, Opaque) or any(isinstance(x, Opaque) for x in list(sup) + list(notes)):
                 raise AnalysisError('post_process_findings: returned lists are not computable by the list interpreter')
-            got_warn = set()
-            for nm, args, k in fe['<effects>']:
-                nsites.add(k)
-                if len(args) != 3 or isinstance(args[1], Opaque) or isinstance(args[2], Opaque):
-                    raise AnalysisError('Terrapin adder called with uncomputable arguments at %s' % stmt_text(it.nodes[k]))
-                got_warn.add((args[1], args[2]))
+            got_warn = T.warned(fe['<table>'])
+            if got_warn:
+                nsites.add('table')
+            mis = T.misplaced(fe['<table>'])
+            if mis:
+                bad.append(('warning', val, 'the Terrapin text is added to row %d of %s/%s instead of row 2 (warnings)' % (mis[0][2], mis[0][0], mis[0][1])))
+            wrong_text = [(c, n, t) for c, n in got_warn for t in (fe['<table>'][c][n][2] if len(fe['<table>'][c][n]) > 2 else []) if 'Terrapin' not in str(t)]
+            if wrong_text:
+                bad.append(('warning', val, 'the warning text added to %s does not name the Terrapin attack' % (wrong_text[:2],)))
             text = ' '.join(str(x) for x in notes)
             got_note = {n for n in all_names if re.search(r'(?<![\w@.-])' + re.escape(n) + r'(?![\w@-])', text)}
             got_sup = {n for n in sup if n in shaped}
